@@ -198,7 +198,7 @@ Lemma split_bin_V : forall P age v s cb fl b c j a w ps',
   locate P (fns P + j) = Some (b, c, j, a) ->
   split_bin g n m cb fl (mkP P age v s) (fns P + j) = Ok (w, ps') ->
   cinv (fns P) (p_cells ps') (p_value ps') (p_spl ps') cb fl /\
-  (w = false -> clean (p_cells ps') (p_value ps') (p_spl ps')).
+  (w = false -> clean (p_cells ps') (p_value ps') (p_spl ps') /\ fns P < p_spl ps').
 Proof.
   intros P age v s cb fl b c j a w ps' (Hs & junk & Hv & HJ & HD) EP Hb H2 Hj HN HO HLoc HSp.
   destruct (split_bin_spec _ _ _ _ _ _ _ _ _ _ _ _ _ HSp HLoc H2) as (x & Hx & Hcs & _ & HV).
@@ -234,7 +234,7 @@ Proof.
       { rewrite E3. unfold cs'. rewrite fns_app_singles.
         - simpl. lia.
         - apply prefix_all. rewrite <- Hsb. intros k d Hk Hd. apply (HPS k d Hk). unfold cs'. rewrite nth_error_app1 by lia. exact Hd. }
-      split; [|intros _; repeat split; assumption].
+      split; [|intros _; split; [repeat split; assumption|lia]].
       exists []. rewrite app_nil_r. repeat split; try assumption; try lia; [constructor|]. left. repeat split; try assumption. lia.
   - (* the value has already lost *)
     destruct (n - s) as [|k] eqn:Ek; [lia|].
@@ -405,6 +405,63 @@ Proof.
   - apply Nat.ltb_ge in E. assert (b = spl) by lia. subst spl. cbn [fst snd]. split; [exact Eb|].
     exists junk. split; [rewrite Hv, HG; reflexivity|]. split; [exact HJ|].
     destruct HD as [(_ & _ & Hlt)|HD]; [lia|right; exact HD].
+Qed.
+
+(* ---------------------------------------------------------------- without a best leaf nothing is cut off *)
+
+Lemma expand_loop_nil : forall k cs fl value j v, expand_loop k g cs n m [] fl value j <> EvWorse v.
+Proof.
+  induction k as [|k IH]; intros cs fl value j v; simpl; [discriminate|].
+  destruct (nth_error cs j); [|discriminate]. destruct (length (cverts a) =? 1); [|discriminate].
+  destruct (nth_error (order_of cs) j); [|discriminate]. apply IH.
+Qed.
+
+Lemma round_loop_nil : forall fl w age pre_rev post value spl ps', round_loop g n m [] fl w age pre_rev post value spl <> RrWorse ps'.
+Proof.
+  intros fl w age. induction pre_rev as [|c pre IH]; intros post value spl ps'; simpl; [discriminate|].
+  destruct (uniform g w (cverts c)); [apply IH|]. destruct (length pre =? spl); [|apply IH].
+  unfold expand_value. destruct (expand_loop (n - spl) g _ n m [] fl value spl) eqn:E; [discriminate| |apply IH].
+  exfalso. eapply expand_loop_nil. exact E.
+Qed.
+
+Lemma refine_loop_nil : forall fl k ps w ps', refine_loop k g n m [] fl ps = Ok (w, ps') -> w = false.
+Proof.
+  intros fl. induction k as [|k IH]; intros ps w ps' H; simpl in H.
+  - destruct (pick_a (p_cells ps)) as [[P' w0]|]; [discriminate|]. inversion H. reflexivity.
+  - destruct (pick_a (p_cells ps)) as [[P' w0]|]; [|inversion H; reflexivity].
+    destruct (round_loop g n m [] fl w0 (p_age ps) (rev P') [] (p_value ps) (p_spl ps)) eqn:E; [discriminate| |eapply IH; exact H].
+    exfalso. eapply round_loop_nil. exact E.
+Qed.
+
+Lemma split_bin_nil : forall fl ps i w ps', split_bin g n m [] fl ps i = Ok (w, ps') -> w = false.
+Proof.
+  intros fl ps i w ps' H. unfold split_bin in H. destruct (locate (p_cells ps) i) as [[[[b c] k] a]|]; [|discriminate].
+  destruct (nth_error (cverts c) k); [|discriminate]. destruct (length b =? p_spl ps); [|inversion H; reflexivity].
+  unfold expand_value in H. destruct (expand_loop _ g _ n m [] fl (p_value ps) (p_spl ps)) eqn:E; [discriminate| |inversion H; reflexivity].
+  exfalso. eapply expand_loop_nil. exact E.
+Qed.
+
+Lemma uinv_cinv : forall b P v s cb fl, uinv P v s cb fl -> b < fns P -> cinv b P v s cb fl.
+Proof.
+  intros b P v s cb fl (Hs & junk & Hv & HJ & HD) Hb. exists junk. split; [exact Hv|].
+  split; [rewrite Hs; apply fns_prefix_single|]. split; [exact HJ|]. split; [lia|].
+  destruct HD as [->|HD]; [left; repeat split; [exact Hs|lia]|right; exact HD].
+Qed.
+
+Lemma dform_cinv : forall b cs v s cb fl, dform cs v s cb fl -> b <= s -> cinv b cs v s cb fl.
+Proof.
+  intros b cs v s cb fl (junk & H1 & H2 & H3 & H4) Hb. exists junk. repeat split; try assumption. right. exact H4.
+Qed.
+
+Lemma clean_cinv : forall b cs v s cb fl, clean cs v s -> b < s -> cinv b cs v s cb fl.
+Proof.
+  intros b cs v s cb fl (H1 & H2 & H3) Hb. exists []. rewrite app_nil_r. repeat split; try assumption; [constructor|lia|].
+  left. repeat split; assumption.
+Qed.
+
+Lemma dform_vinv : forall cs v s cb fl, dform cs v s cb fl -> vinv cs v s cb fl.
+Proof.
+  intros cs v s cb fl (junk & H1 & H2 & H3 & H4). exists junk. repeat split; try assumption. right. exact H4.
 Qed.
 
 End Expand.
